@@ -6,6 +6,7 @@ package main
 
 import (
 	"fmt"
+	"os"
 	"regexp"
 	"strconv"
 	"strings"
@@ -255,8 +256,13 @@ func fieldString() string {
 }
 
 func main() {
+	if os.Getenv(childEnv) != "" { // re-executed with TZ=<zone>: see local.go
+		childMain()
+		return
+	}
 	r = vh.Start("C14")
 	defer r.Finish()
+	runLocalZones()
 
 	var offs []int // all whole-minute offsets with |off| < 24h
 	for k := -1439; k <= 1439; k++ {
